@@ -99,9 +99,9 @@ func runAccum(c *core.Ctx) []core.Obligation {
 		obs = append(obs, core.Ob("R-ACCUM", "anchor", "-", "", core.Violated, fmt.Sprintf("only %d accumulator updates found", total)))
 	}
 	obs = append(obs, vertexOnlyBounds(c)...)
+	obs = append(obs, bounderFallback(c))
 	return obs
 }
-
 
 // vertexOnlyBounds (after round-7 seed C05-r7m1, Polyline.IntersectsCell rejecting a cell whose RectBound does not meet
 // a rectangle grown from the polyline's vertices with Rect.AddPoint): a geodesic edge rises poleward of both its
